@@ -645,6 +645,12 @@ def check_hkdf(ck_ob, mod, label):
                 wc = Lf({OUTP: 1, 1: avail}) if avail else Lf.s(OUTP)
                 wr = Lf({OLEN: 1, 1: -avail}) if avail else Lf.s(OLEN)
                 c("STREAM", ic == wc and ir_ == wr, "leftover-cursor(posn=%d)" % pz, "block loop starts at out + %d with outlen - %d left" % (avail, avail), "block loop starts with cursor %s / remaining %s" % (ic, ir_))
+                # (for the write range alone: cursor + remaining must not reach beyond out + outlen - the block loop writes `remaining` bytes from the cursor)
+                ext_ = None
+                if ic is not None and ir_ is not None and not is_word(ic) and not is_word(ir_):
+                    ext_ = ic.add(Lf.s(OUTP), -1).add(ir_).add(Lf.s(OLEN), -1).const()
+                c("STREAM", ext_ is not None and ext_ <= 0, "leftover-extent(posn=%d)" % pz, "the block loop starts with cursor + remaining at or before out + outlen",
+                  "the block loop starts at out + %s with %s bytes to write: %s byte(s) beyond out + outlen are written" % (ic.add(Lf.s(OUTP), -1) if ic is not None and not is_word(ic) else "?", ir_, ext_))
                 c("STREAM", p.lfmem.get((ST, POSN, 1)) == Lf.c(32), "leftover-consumed(posn=%d)" % pz, "position = 32 (last block used up)", "position is %s when the block loop starts" % p.lfmem.get((ST, POSN, 1)))
                 n += 3
             continue
